@@ -1470,14 +1470,16 @@ namespace igris
 
             invalidate();
 
-            m_size = other.m_size;
-            m_data = m_alloc.allocate(m_size);
-            m_capacity = m_size;
+            // m_size counts the elements constructed so far: if allocate
+            // or a copy constructor throws, the vector holds exactly those
+            m_data = m_alloc.allocate(other.m_size);
+            m_capacity = other.m_size;
             for (auto ip = other.m_data, op = m_data;
                  ip != other.m_data + other.m_size;
                  ip++, op++)
             {
                 igris::constructor(op, *ip);
+                m_size++;
             }
 
             return *this;
